@@ -26,6 +26,8 @@ JudgeGeno(e) ==
     LET g == Sorted(e.alleles) IN
     /\ Check(e, "IndexIsOrderRank", e.idx = IndexOf(e.alleles))
     /\ Check(e, "RoundTrip", SameBag(e.back, e.alleles))
+    \* the restored object reports the restored genotype's index, state and hash (not what the carrier object held before)
+    /\ Check(e, "RestoredIndexAgrees", e.bidx = e.idx /\ e.bstate = <<e.idx, e.ploidy>> /\ e.bhash)
     /\ Check(e, "VectorIsBag", SameBag(e.vec, e.alleles))
     /\ Check(e, "Ploidy", e.ploidy = Len(e.alleles))
     /\ Check(e, "Homozygous", e.hom <=> (Len(g) > 0 /\ AllSame(g)))
